@@ -312,10 +312,12 @@ inductive Pass where
   | selfDep | argIso | callIso | iteExp
   deriving DecidableEq, Repr
 
-/-- the generators `apply_statement_rewriter` seeds from the statements of the phase -/
-def initPS (stmts : List FStmt) : PS :=
+/-- the generators `apply_statement_rewriter` seeds from the phase: the ids of its statements; the
+    variables its statements read or write and (`extra`) the names its loop and conditional nodes
+    mention — loop variables, variables in loop bounds and in conditions -/
+def initPS (stmts : List FStmt) (extra : List Name := []) : PS :=
   { ids := ⟨stmts.map (·.id), [], [], false⟩,
-    vars := ⟨(usedIdents stmts).map String.toList, [], [], false⟩,
+    vars := ⟨(usedIdents stmts ++ extra).map String.toList, [], [], false⟩,
     out := [] }
 
 /-- one pass over the leaves of a structured phase, left to right; `orders` = for each leaf the
@@ -333,7 +335,8 @@ def runPass (pass : Pass) : List FStmt → List (List Name) → PS → List (Lis
       | .iteExp => mapStmt .ite st p
     news :: runPass pass rest orders' p'
 
-def applyPass (pass : Pass) (stmts : List FStmt) (orders : List (List Name)) : List (List FStmt) :=
-  runPass pass stmts orders (initPS stmts)
+def applyPass (pass : Pass) (stmts : List FStmt) (orders : List (List Name)) (extra : List Name := []) :
+    List (List FStmt) :=
+  runPass pass stmts orders (initPS stmts extra)
 
 end Dagrt.Passes
